@@ -628,3 +628,63 @@ def run_nodrop(chk, F, G, rid="R-NODROP"):
                "%s skips its store silently when %s fails, relying on %s to have reported it - but %s no longer reports "
                "an error under that condition" % (fname, " / ".join(atoms), partner, partner),
                "%s:%s" % (pf["file"], pf["line"]))
+
+
+# --------------------------------------------------------------------------------------------- R-FLAGMONO
+def run_flagmono(chk, F, rid="R-FLAGMONO"):
+    """XMLReader::location parses the labels of a location one by one; each successful parse leaves an operand on the
+    builder's stack and raises a flag (`has invariant`, `has rate`) that proc_location later uses to pop it.  A flag
+    that was raised by one label must not be lowered by another label of the same location - the operand is still on
+    the stack and belongs to the location."""
+    from ..inline import strip
+    chk.rule(rid, "the boolean flags XMLReader::location hands to proc_location only ever go from false to true while "
+                  "the labels are read: every assignment to them is `|=`, `= true`, or `= <itself> || ...`")
+    loc = F.fn("UTAP::XMLReader::location")
+    pl = [c for c in calls(loc["body"], "proc_location")]
+    if len(pl) != 1:
+        raise AnalysisBroken("XMLReader::location: expected one proc_location call")
+    flags = {}
+    for a in pl[0].get("args", [])[1:]:
+        a = strip(a)
+        if isinstance(a, dict) and a.get("k") == "ref" and a.get("dk") == "local":
+            flags[a["id"]] = a["name"]
+    if len(flags) < 2:
+        raise AnalysisBroken("XMLReader::location: proc_location is not given two local flags")
+    bad = {}
+    n = 0
+
+    def check(lhs, op, rhs, line):
+        nonlocal n
+        lhs = strip(lhs)
+        if not (isinstance(lhs, dict) and lhs.get("k") == "ref" and lhs.get("id") in flags):
+            return
+        n += 1
+        name = flags[lhs["id"]]
+        rhs0 = strip(rhs) if rhs is not None else None
+        if op == "|=":
+            return
+        if op == "=":
+            if isinstance(rhs0, dict) and rhs0.get("k") == "bool" and rhs0.get("v"):
+                return
+            # itself || ...
+            def has_self(e):
+                e = strip(e)
+                if isinstance(e, dict) and e.get("k") == "bin" and e.get("op") == "||":
+                    return has_self(e["lhs"]) or has_self(e["rhs"])
+                return isinstance(e, dict) and e.get("k") == "ref" and e.get("id") == lhs["id"]
+            if rhs0 is not None and has_self(rhs0):
+                return
+            # a chained assignment `a = b = false` is reported through its inner assignment as well
+        bad.setdefault(name, []).append("line %s: `%s %s %s`" % (line, name, op, short(rhs)[:30] if rhs is not None else ""))
+    for x in walk(loc["body"]):
+        if x.get("k") == "bin" and x.get("op") in ("=", "|=", "&=", "^="):
+            check(x["lhs"], x["op"], x.get("rhs"), x.get("l"))
+        elif x.get("k") == "un" and x.get("op") in ("++", "--"):
+            check(x.get("e"), x["op"], None, x.get("l"))
+    for fid, name in sorted(flags.items(), key=lambda kv: kv[1]):
+        chk.ob(rid, "location|%s" % name, name not in bad,
+               "XMLReader::location lowers the flag `%s` while reading the labels of a location (%s): a label that was "
+               "parsed successfully is then not collected by proc_location - a fault in one label makes another label "
+               "of the same location disappear (and its operand stays on the builder's stack)" %
+               (name, "; ".join(bad.get(name, []))), "%s:%s" % (loc["file"], loc["line"]),
+               sample="%s: %d assignment(s), all raising" % (name, n))
